@@ -78,7 +78,6 @@ GPOS4:
 var extraBlocks = []string{
 	"GSUB1: A->B ||\n\tC->D, E->F",
 	"GSUB2: A -> \"AB\" ||\n\tB -> \"CD\"",
-	"GSUB3: A -> [ \"BC\" ] ||\n\tB -> [ \"DE\" ]",
 	"GSUB4: A B -> C ||\n\tD E -> F",
 	"GSUB4: -ligs A B -> C",
 	"GSUB1: -marks -ligs -base A->B",
@@ -93,6 +92,8 @@ var extraBlocks = []string{
 	"GSUB4: \"A\\\\\" -> B, \"\\\\\\\\\" -> C",
 	"GSUB6:\n\tA \"B\\\\\" | C | D -> 1@0",
 	"GPOS4:\n\tmark M: 0@1,1;\n\tbase A: @2,2 ||\n\tmark N: 0@3,3;\n\tbase B: @4,4",
+	"GPOS2:\n\t/A L V W/\n\tfirst V W, , A L;\n\tsecond E O, V W;\n\t_, _, _,\n\t_, dx-50 & y-10, dx+10,\n\t_, _, _,\n\t_, dx-10 & y+10, dx-30",
+	"GPOS2:\n\t/A L V/\n\tfirst V, , A;\n\tsecond E, , O;\n\t_, _, _, _,\n\t_, dx-50, _, dx+10,\n\t_, _, _, _,\n\t_, dx-10, _, dx-30",
 	"GPOS1: A -> x+1 y-2 dx+3",
 	"GPOS2: -base A V -> dx-100",
 	"GPOS2: -marks -ligs T E -> y+100 dx-50 & y-100",
@@ -102,6 +103,7 @@ var (
 	fontNamed   *sfnt.Font // CFF, glyph names A..Z, cmap
 	fontGlyf    *sfnt.Font // Go Regular: TrueType with post names and cmap
 	fontNoNames *sfnt.Font // Go Regular without glyph names
+	fontNoCmap  *sfnt.Font // Go Regular without a character map
 )
 
 func setup(string, uint64) {
@@ -109,6 +111,8 @@ func setup(string, uint64) {
 	fontGlyf = simgen.ReadGoFont(0)
 	fontNoNames = simgen.ReadGoFont(0)
 	fontNoNames.Outlines.(*glyf.Outlines).Names = nil
+	fontNoCmap = simgen.ReadGoFont(0)
+	fontNoCmap.CMapTable = nil
 }
 
 // ---- the scheduler inside the bubble -------------------------------------------------
@@ -335,13 +339,15 @@ func mutate(t *tape.Tape, text string) (string, string) {
 
 func genText(c *wk.Case) (font *sfnt.Font, fontName, text, kind string) {
 	t := c.T
-	switch t.Weighted(5, 2, 2) {
+	switch t.Weighted(10, 4, 4, 1) {
 	case 0:
 		font, fontName = fontNamed, "debug(A-Z,names,cmap)"
 	case 1:
 		font, fontName = fontGlyf, "goregular(names,cmap)"
-	default:
+	case 2:
 		font, fontName = fontNoNames, "goregular(no names,cmap)"
+	default:
+		font, fontName = fontNoCmap, "goregular(names,no cmap)"
 	}
 	switch t.Weighted(5, 3, 1) {
 	case 0:
@@ -358,14 +364,23 @@ func genText(c *wk.Case) (font *sfnt.Font, fontName, text, kind string) {
 			}
 			blocks = append(blocks, strings.Join(cur, "\n"))
 		}
+		nRepo := len(blocks)
 		blocks = append(blocks, extraBlocks...)
 		n := t.Range(1, 4)
 		var sel []string
+		onlyRepo := true
 		for i := 0; i < n; i++ {
-			sel = append(sel, blocks[t.Draw(len(blocks))])
+			k := t.Draw(len(blocks))
+			if k >= nRepo {
+				onlyRepo = false
+			}
+			sel = append(sel, blocks[k])
 		}
 		text = strings.Join(sel, "\n") + "\n"
 		kind = "sample"
+		if onlyRepo {
+			kind = "sample-repo"
+		}
 	case 1:
 		// Explain of generated lookups
 		g := &simgen.LookupGen{T: t, N: min(font.NumGlyphs(), 60)}
@@ -488,6 +503,13 @@ func run(c *wk.Case) {
 	if out.bubbleMsg != "" {
 		c.Fail("goroutine-leak", "bubble", "Parse returned (err=%v) and the bubble reports: %s", out.err, out.bubbleMsg)
 	}
+	if out.err != nil && kind == "sample-repo" && (font == fontGlyf || font == fontNamed) {
+		// an unmutated selection of lookups from the repository's own
+		// examples of the syntax (parser_test.go), on a font that has all the
+		// glyph names and characters they mention.  (The extra blocks are the
+		// harness author's reading of the syntax and are not judged this way.)
+		c.Fail("documented-syntax-rejected", errClass(text, out.err), "a description in the documented syntax is rejected: %v\n--- description\n%s", out.err, text)
+	}
 	if out.err != nil && (kind == "explain" || kind == "explain-ligatures") {
 		// Not judged: whether generated lookups are "expressible" would have
 		// to be taken on trust from the generator (shapes the encoder
@@ -505,7 +527,11 @@ func run(c *wk.Case) {
 			fmt.Sscan(m[1], &n)
 			ok = n >= 1 && n <= nl+1
 		}
-		if !ok {
+		if !ok && font.CMapTable == nil {
+			// Parse refuses a font without a character map before it looks
+			// at the text; that error is about the font, not about a line
+			c.Count("font_without_cmap_refused_(line_number_not_judged)", 1)
+		} else if !ok {
 			c.Fail("error-without-line", "Parse", "the error %q does not carry a line number between 1 and %d", out.err.Error(), nl+1)
 		}
 		return
